@@ -117,6 +117,15 @@ fn place(rng: &mut Rng, text: &str, st: &mut Stats) -> Vec<scnr::ScannerMode> {
                             scnr::Lookahead::new(rng.chance(1, 2), text.to_string()),
                         ),
                     );
+                    // now and then a later pattern of the same token type carries a (valid)
+                    // lookahead as well: every lookahead string must be examined all the same
+                    if rng.chance(1, 5) {
+                        st.count("placed_in_lookahead_before_a_pattern_of_the_same_token_type");
+                        pats.push(
+                            scnr::Pattern::new("c".to_string(), pi)
+                                .with_lookahead(scnr::Lookahead::new(rng.chance(1, 2), "d".to_string())),
+                        );
+                    }
                 } else {
                     pats.push(scnr::Pattern::new(text.to_string(), pi));
                 }
@@ -565,6 +574,7 @@ pub fn c15(tier: Tier) -> i32 {
     .floor("placed_in_lookahead", 5_000)
     .floor("placed_in_non_first_mode", 5_000)
     .floor("planted_valued_class_after_supported_class_of_same_name", 500)
+    .floor("placed_in_lookahead_before_a_pattern_of_the_same_token_type", 1_000)
     .assume("repetition counts are bounded (product <= 4096): unbounded counts are resource exhaustion, not a panic")
     .assume("regex-syntax decides what a syntax error is");
     for cat in ["anchor", "word_boundary", "flags", "non_greedy", "look_around", "unicode_class", "syntax_error"] {
